@@ -118,10 +118,10 @@ pub fn subs() -> Vec<Sub> {
     vec![
         Sub { prop: "C01", name: "types",
               rule: "tape-generated value of a registry type (uniform over ~120 instantiations, boundary-dense leaves) -> to_vec -> decode with 0-3 junk bytes appended; non-trivial = encoding >= 2 bytes; distinct by (type, bytes)",
-              kind: Kind::Random { quick: 240_000, thorough: 12_000_000, tape: 1024, f: random_types } },
+              kind: Kind::Random { quick: 1_200_000, thorough: 12_000_000, tape: 1024, f: random_types } },
         Sub { prop: "C01", name: "refused",
               rule: "pre-epoch SystemTime / non-UTF-8 Path: encoder must refuse without panic; distinct by value",
-              kind: Kind::Random { quick: 2_000, thorough: 50_000, tape: 64, f: refused } },
+              kind: Kind::Random { quick: 10_000, thorough: 50_000, tape: 64, f: refused } },
         en("all-u8", 1 << 8, ex_u8, false), en("all-i8", 1 << 8, ex_i8, false),
         en("all-u16", 1 << 16, ex_u16, false), en("all-i16", 1 << 16, ex_i16, false),
         en("all-char", 0x11_0000, ex_char, false),
